@@ -113,7 +113,10 @@ def directed_tokens():
 	import encodings.aliases
 	names = sorted(set(encodings.aliases.aliases.values()) | {'idna', 'punycode', 'undefined', 'unicode_escape', 'raw_unicode_escape', 'utf_8_sig', 'mbcs', 'oem'})
 	return (list(wire.TOKENS) + [b'=?%s?q?ab=ff?=' % n.encode() for n in names] + [b'=?%s?b?/4A=?=' % n.encode() for n in names]
-		+ [b"t*=%s''%%ff%%80a" % n.encode() for n in names])
+		+ [b"t*=%s''%%ff%%80a" % n.encode() for n in names]
+		# payloads that some codecs decode to lone surrogates (UTF-7 "+2AA-", the escape codecs "\\ud800"): no text, not encodable again
+		+ [b'=?%s?q?+2AA-?=' % n.encode() for n in names] + [b'=?%s?q?=5Cud800?=' % n.encode() for n in names]
+		+ [b"t*=%s''+2AA-" % n.encode() for n in names] + [b"t*=%s''%%5Cud800" % n.encode() for n in names])
 
 
 def search(rng, res):
